@@ -136,16 +136,19 @@ var titleSegs = []string{"..", ".", "", "x", "in", "up", "wd"}
 
 const titleForms = 3 // relative | $WD/… | $ROOT/a/…
 const titleKinds = 2 // blob | archive
+const titleDirs = 2  // working directory pre-populated ("sub") | not existing yet ("absent")
 
 func titleCount(maxLen int) int {
 	n := 0
 	for l := 1; l <= maxLen; l++ {
 		n += pow(len(titleSegs), l)
 	}
-	return n * titleForms * titleKinds
+	return n * titleForms * titleKinds * titleDirs
 }
 
 func titleCase(i int) Case {
+	prepop := []string{"sub", "absent"}[i%titleDirs]
+	i /= titleDirs
 	kind := i % titleKinds
 	i /= titleKinds
 	form := i % titleForms
@@ -175,7 +178,7 @@ func titleCase(i int) Case {
 	if kind == 1 {
 		p = Push{Kind: "archive", Title: t, Entries: []Entry{dir(join(t, "zd")), reg(join(t, "zd/z")), reg(join(t, "z"))}}
 	}
-	return Case{Prepop: "sub", Pushes: []Push{p}}
+	return Case{Prepop: prepop, Pushes: []Push{p}}
 }
 
 // ---- random / mutated sequences over the full vocabulary -------------------
@@ -356,7 +359,7 @@ func genArchive(rng *rand.Rand, title string, n int) Push {
 }
 
 func genPrepop(rng *rand.Rand) string {
-	return pick(rng, []string{"empty", "empty", "empty", "d", "d", "ds", "sub", "full", "full"})
+	return pick(rng, []string{"empty", "empty", "empty", "absent", "d", "d", "ds", "sub", "full", "full"})
 }
 
 func cloneCase(c Case) Case {
